@@ -110,6 +110,7 @@ func (fr *Frame) call(st *State, c *ast.CallExpr) []Val {
 		return fr.contractCall(st, c, fn, ct)
 	}
 	if x.eng.isPurePkg(fn) {
+		fr.labelCardinality(st, c, fn)
 		return fr.pureCall(st, c, fn)
 	}
 	if decl, dpkg := x.eng.funcDecl(fn); decl != nil && decl.Body != nil && fr.depth < 4 && !fr.onStack(full) {
@@ -182,6 +183,7 @@ func (fr *Frame) unknownCall(st *State, c *ast.CallExpr, fn *types.Func) []Val {
 		x.havocHeap(st, k)
 	}
 	x.havocAllSeen = true
+	x.havocAllPCs = append(x.havocAllPCs, st.pc)
 	nn := x.u.fresh("next", "Int")
 	x.u.fact("(>= " + nn + " " + st.next + ")")
 	st.next = nn
@@ -244,6 +246,7 @@ func (fr *Frame) dynamicCall(st *State, c *ast.CallExpr) []Val {
 		x.havocHeap(st, k)
 	}
 	x.havocAllSeen = true
+	x.havocAllPCs = append(x.havocAllPCs, st.pc)
 	if sig == nil {
 		return nil
 	}
@@ -334,6 +337,7 @@ func (fr *Frame) contractCall(st *State, c *ast.CallExpr, fn *types.Func, ct *Co
 				x.havocHeap(st, k)
 			}
 			x.havocAllSeen = true
+	x.havocAllPCs = append(x.havocAllPCs, st.pc)
 			continue
 		}
 		if strings.HasPrefix(m, "arg:") {
@@ -837,4 +841,76 @@ func sortedContracts(m map[string]*Contract) []string {
 	}
 	sort.Strings(ks)
 	return ks
+}
+
+// labelCardinality: (*prometheus.XxxVec).WithLabelValues panics when the number of values
+// differs from the number of labels the vector was declared with. For a vector held in a
+// package-level variable initialised by New...Vec(opts, []string{...}) both numbers are known:
+// a mismatch is a crash on every execution of the call (obligation lib:prometheus-label-cardinality).
+func (fr *Frame) labelCardinality(st *State, c *ast.CallExpr, fn *types.Func) {
+	if fn.Name() != "WithLabelValues" || fn.Pkg() == nil || !strings.Contains(fn.Pkg().Path(), "prometheus") || c.Ellipsis.IsValid() {
+		return
+	}
+	se, ok := ast.Unparen(c.Fun).(*ast.SelectorExpr)
+	if !ok {
+		return
+	}
+	var obj types.Object
+	switch r := ast.Unparen(se.X).(type) {
+	case *ast.Ident:
+		obj = fr.info.ObjectOf(r)
+	case *ast.SelectorExpr:
+		obj = fr.info.ObjectOf(r.Sel)
+	}
+	v, ok := obj.(*types.Var)
+	if !ok || v.Pkg() == nil || v.Parent() != v.Pkg().Scope() {
+		return
+	}
+	n, ok := fr.x.eng.declaredLabels(v)
+	if !ok || n == len(c.Args) {
+		return
+	}
+	fr.x.used("prometheus vectors in package-level variables: WithLabelValues is called with as many values as labels were declared")
+	fr.x.u.oblige("lib:prometheus-label-cardinality:"+v.Name(), "safe", fmt.Sprintf("%s was declared with %d labels, WithLabelValues is called with %d values (panics)", v.Name(), n, len(c.Args)), fr.pos(c.Pos()), st.pc, "false")
+}
+
+// declaredLabels finds `var v = ....New*Vec(opts, []string{...})` and counts the labels.
+func (e *Engine) declaredLabels(v *types.Var) (int, bool) {
+	for _, p := range e.pkgs {
+		if p == nil || p.Types != v.Pkg() || p.TypesInfo == nil {
+			continue
+		}
+		for _, f := range p.Syntax {
+			for _, d := range f.Decls {
+				gd, ok := d.(*ast.GenDecl)
+				if !ok {
+					continue
+				}
+				for _, sp := range gd.Specs {
+					vs, ok := sp.(*ast.ValueSpec)
+					if !ok {
+						continue
+					}
+					for i, nm := range vs.Names {
+						if p.TypesInfo.Defs[nm] != v || i >= len(vs.Values) {
+							continue
+						}
+						call, ok := ast.Unparen(vs.Values[i]).(*ast.CallExpr)
+						if !ok || len(call.Args) == 0 {
+							return 0, false
+						}
+						cl, ok := ast.Unparen(call.Args[len(call.Args)-1]).(*ast.CompositeLit)
+						if !ok {
+							return 0, false
+						}
+						if at, ok := cl.Type.(*ast.ArrayType); !ok || at.Len != nil {
+							return 0, false
+						}
+						return len(cl.Elts), true
+					}
+				}
+			}
+		}
+	}
+	return 0, false
 }
